@@ -24,3 +24,38 @@ M("randbinary-split-outside", "PyXAB/partition/RandomBinaryPartition.py",
   "domain2[dim] = [np.nextafter(split_point, np.inf), selected_dim[1]]", ["C02"])
 M("dimbinary-wrong-half", "PyXAB/partition/DimensionBinaryPartition.py",
   "comb2 = [split_point, selected_dim[1]]", "comb2 = [split_point, selected_dim[1]] if dim == 0 else [selected_dim[0], split_point]", ["C02"])
+
+# ---- reverts of the repaired defects D1..D7
+M("revert-D1-kary-alias", "PyXAB/partition/KaryPartition.py",
+  "self.node_list.append(list(new_nodes))", "self.node_list.append(new_nodes)", ["C03"])
+M("revert-D1-randkary-alias", "PyXAB/partition/RandomKaryPartition.py",
+  "self.node_list.append(list(new_nodes))", "self.node_list.append(new_nodes)", ["C03"])
+M("revert-D1-dimbinary-alias", "PyXAB/partition/DimensionBinaryPartition.py",
+  "self.node_list.append(list(children_list))", "self.node_list.append(children_list)", ["C03"])
+M("revert-D2-doo-delta", "PyXAB/algos/DOO.py",
+  "        else:\n            self.delta = delta\n", "", ["C01"])
+M("revert-D3-doo-newlayer", "PyXAB/algos/DOO.py",
+  "newlayer=(max_node.get_depth() >= self.partition.get_depth()),", "newlayer=True,", ["C03"])
+M("revert-D4-doo-reward0", "PyXAB/algos/DOO.py",
+  "self.reward = -np.inf", "self.reward = 0", ["C07"])
+M("revert-D5-hct-leaf", "PyXAB/algos/HCT.py",
+  "            end_node.get_children() is None\n            and end_node.get_visited_times() >= self.tau_h[en_depth]",
+  "            end_node.get_visited_times() >= self.tau_h[en_depth]", ["C03", "C04", "C06"])
+M("revert-D5-vhct-leaf", "PyXAB/algos/VHCT.py",
+  "            end_node.get_children() is None\n            and end_node.get_visited_times() >= end_node.get_tau_hi_value()",
+  "            end_node.get_visited_times() >= end_node.get_tau_hi_value()", ["C03", "C04", "C06"])
+M("revert-D6-zooming-arm", "PyXAB/algos/Zooming.py",
+  "                if not child_updated and arm_reassigned:", "                if False:", ["C11"])
+
+# ---- structure (C03)
+M("binary-index-off", "PyXAB/partition/BinaryPartition.py",
+  "index=2 * parent.get_index(),", "index=2 * parent.get_index() + 1,", ["C03"])
+M("kary-index-order", "PyXAB/partition/KaryPartition.py",
+  "index=self.K * parent.get_index() - (self.K - i - 1),", "index=self.K * parent.get_index() - i,", ["C03"])
+M("dimbinary-index-base", "PyXAB/partition/DimensionBinaryPartition.py",
+  "index=num_children * (parent.get_index() - 1) + i + 1,", "index=2 * (parent.get_index() - 1) + i + 1,", ["C03"])
+M("hoo-newlayer-inverted", "PyXAB/algos/HOO.py",
+  "if parent.get_depth() >= self.partition.get_depth():", "if parent.get_depth() > self.partition.get_depth():", ["C01"])
+M("randbinary-depth-not-bumped", "PyXAB/partition/RandomBinaryPartition.py",
+  "            self.node_list.append(new_deepest)\n            self.depth += 1",
+  "            self.node_list.append(new_deepest)\n            self.depth = len(self.node_list) - 1 if len(self.node_list) < 6 else self.depth", ["C03"])
